@@ -852,3 +852,118 @@ func TestViews(t *testing.T) {
 			return l
 		}})
 }
+
+// ---- a column-stored alignment put together as a plain struct value (columns, no per-row annotations) ----
+
+type literalCase struct {
+	Alpha   string   `json:"alpha"`
+	Quality bool     `json:"quality"`
+	Rows    []string `json:"rows"` // equal lengths
+	Q       [][]int  `json:"q"`
+	Strand  int8     `json:"strand"`
+}
+
+func checkLiteral(c literalCase) (f *vlib.Failure) {
+	defer func() {
+		if r := recover(); r != nil {
+			f = vlib.Failf("panic", "alignment built as a struct value (%d rows, quality=%v) over %s: %v", len(c.Rows), c.Quality, c.Alpha, r)
+		}
+	}()
+	alpha := sm.Alpha(c.Alpha)
+	n := len(c.Rows[0])
+	var revcomp func()
+	var read func() ([]string, [][]int)
+	var strand func() seq.Strand
+	if c.Quality {
+		a := &alignment.QSeq{Annotation: seq.Annotation{ID: "a", Alpha: alpha, Strand: seq.Strand(c.Strand)}, ColumnConsense: seq.DefaultQConsensus, Threshold: 2, QFilter: seq.AmbigFilter, Encode: alphabet.Sanger}
+		for j := 0; j < n; j++ {
+			col := make(alphabet.QLetters, len(c.Rows))
+			for i := range c.Rows {
+				col[i] = alphabet.QLetter{L: alphabet.Letter(c.Rows[i][j]), Q: alphabet.Qphred(c.Q[i][j])}
+			}
+			a.Seq = append(a.Seq, col)
+		}
+		revcomp, strand = a.RevComp, func() seq.Strand { return a.Strand }
+		read = func() ([]string, [][]int) {
+			ls, qs := make([]string, len(c.Rows)), make([][]int, len(c.Rows))
+			for i := range c.Rows {
+				var b []byte
+				for _, col := range a.Seq {
+					b = append(b, byte(col[i].L))
+					qs[i] = append(qs[i], int(col[i].Q))
+				}
+				ls[i] = string(b)
+			}
+			return ls, qs
+		}
+	} else {
+		a := &alignment.Seq{Annotation: seq.Annotation{ID: "a", Alpha: alpha, Strand: seq.Strand(c.Strand)}, ColumnConsense: seq.DefaultConsensus}
+		for j := 0; j < n; j++ {
+			col := make(alphabet.Letters, len(c.Rows))
+			for i := range c.Rows {
+				col[i] = alphabet.Letter(c.Rows[i][j])
+			}
+			a.Seq = append(a.Seq, col)
+		}
+		revcomp, strand = a.RevComp, func() seq.Strand { return a.Strand }
+		read = func() ([]string, [][]int) {
+			ls := make([]string, len(c.Rows))
+			for i := range c.Rows {
+				var b []byte
+				for _, col := range a.Seq {
+					b = append(b, byte(col[i]))
+				}
+				ls[i] = string(b)
+			}
+			return ls, make([][]int, len(c.Rows))
+		}
+	}
+	bl, bq := read()
+	revcomp()
+	al, aq := read()
+	for i := range bl {
+		w := make([]byte, n)
+		var wq []int
+		for k := 0; k < n; k++ {
+			w[k] = sm.Complement(c.Alpha, bl[i][n-1-k])
+			if bq[i] != nil {
+				wq = append(wq, bq[i][n-1-k])
+			}
+		}
+		if al[i] != string(w) || fmt.Sprint(aq[i]) != fmt.Sprint(wq) {
+			return vlib.Failf("revcomp-letters", "alignment built as a struct value (%d rows x %d columns, quality=%v) over %s: row %d reads %q %v after RevComp, want %q %v", len(c.Rows), n, c.Quality, c.Alpha, i, al[i], aq[i], string(w), wq)
+		}
+	}
+	if strand() != -seq.Strand(c.Strand) {
+		return vlib.Failf("revcomp-strand", "alignment built as a struct value: strand %d after RevComp of a strand-%d alignment", strand(), c.Strand)
+	}
+	revcomp()
+	al, aq = read()
+	for i := range bl {
+		if al[i] != bl[i] || fmt.Sprint(aq[i]) != fmt.Sprint(bq[i]) {
+			return vlib.Failf("revcomp-twice-letters", "alignment built as a struct value: row %d reads %q %v after RevComp twice, it read %q %v", i, al[i], aq[i], bl[i], bq[i])
+		}
+	}
+	return nil
+}
+
+func TestLiteral(t *testing.T) {
+	vlib.Run(t, vlib.Prop[literalCase]{Name: "column-store-built-as-a-struct-value", Checks: 600, Thorough: 30000,
+		Gen: func(t *rapid.T) literalCase {
+			c := literalCase{Alpha: rapid.SampledFrom(compAlphas).Draw(t, "alpha"), Quality: rapid.Bool().Draw(t, "quality"), Strand: int8(rapid.IntRange(-1, 1).Draw(t, "strand"))}
+			pool := sm.PairedLetters(c.Alpha)
+			n := rapid.IntRange(1, 9).Draw(t, "cols")
+			for i, r := 0, rapid.IntRange(1, 4).Draw(t, "rows"); i < r; i++ {
+				b := make([]byte, n)
+				q := make([]int, n)
+				for k := range b {
+					b[k] = pool[rapid.IntRange(0, len(pool)-1).Draw(t, "l")]
+					q[k] = rapid.IntRange(0, 60).Draw(t, "q")
+				}
+				c.Rows, c.Q = append(c.Rows, string(b)), append(c.Q, q)
+			}
+			return c
+		},
+		Check:   checkLiteral,
+		Classes: func(c literalCase) []string { return []string{fmt.Sprintf("rows=%d", len(c.Rows)), vlib.NT} }})
+}
